@@ -70,7 +70,7 @@ def main():
         dst = V / 'seeded' / sid
         dst.mkdir(parents=True, exist_ok=True)
         for f in ('patch.diff', 'demo.py'):
-            if (src / f).exists():
+            if (src / f).exists() and (src / f).resolve() != (dst / f).resolve():
                 shutil.copy(src / f, dst / f)
         meta = {}
         if (src / 'meta.json').exists():
